@@ -63,7 +63,7 @@ func stringSliceForInterface(s string) (ret []interface{}) {
 
 func keyExist(req *protocol.Request, tagInfo TagInfo) bool {
 	ct := bytesconv.B2s(req.Header.ContentType())
-	if utils.FilterContentType(ct) != consts.MIMEApplicationJSON {
+	if !strings.EqualFold(utils.FilterContentType(ct), consts.MIMEApplicationJSON) {
 		return false
 	}
 	node, _ := sonic.Get(req.Body(), stringSliceForInterface(tagInfo.JSONName)...)
